@@ -559,7 +559,7 @@ Section Num.
               | [] => Err EIndex
               | v :: rest' =>
                   if float_lit (tsp v)
-                  then parse_kw f trs rest' (mkKws (k_imp k) (k_fill k) (k_lat k) (k_trcl k) (Some (tint v)))
+                  then parse_kw f trs rest' (mkKws (k_imp k) (k_fill k) (k_lat k) (k_trcl k) (Some (Z.abs (tint v))))
                   else Err EValue
               end
             else if contains_sub "rho" s || contains_sub "mat" s then
@@ -641,7 +641,15 @@ Section Num.
 
   Definition quadric (mn : string) : bool := (mn =? "sq") || (mn =? "gq").
 
-  (* transformation(trpl, surface) needs exactly 9 matrix entries *)
+  (* a GQ card with fewer than ten coefficients converts (finding
+     gq_short_params) but cannot be transformed: transformation_quad indexes
+     params[0..9] (IndexError).  The surface dictionary remembers it under a
+     kind of its own. *)
+  Definition short_gq (mn : string) (n : nat) : bool := (mn =? "gq") && (n <? 10)%nat.
+  Definition tr_kind (mn : string) (n : nat) : string := if short_gq mn n then "gq:short" else mn.
+
+  (* transformation(trpl, surface) needs exactly 9 matrix entries; the first
+     piece of REC and ELL is a GQ *)
   Definition apply_len (k : nat) (mn : string) : res unit :=
     if quadric mn then (if (12 <=? k)%nat then Ok tt else Err EIndex)
     else if (k =? 12)%nat then Ok tt else Err EValue.
@@ -656,10 +664,14 @@ Section Num.
                 | None => Ok tt
                 | Some id => match lookup id trs with
                              | None => Err EKey
-                             | Some k => if mem (sf_mn s) macros then apply_len k "" else apply_len k (sf_mn s)
+                             | Some k =>
+                                 if short_gq (sf_mn s) (List.length (sf_params s)) then Err EIndex
+                                 else if mem (sf_mn s) ["rec"; "ell"] then apply_len k "gq"
+                                 else if mem (sf_mn s) macros then apply_len k ""
+                                 else apply_len k (sf_mn s)
                              end
                 end;
-        stage_surfs trs r ((sf_id s, (sf_mn s, cnt)) :: acc)
+        stage_surfs trs r ((sf_id s, (tr_kind (sf_mn s) (List.length (sf_params s)), cnt)) :: acc)
     end.
 
   Fixpoint stage_cells (trs : list (Z * nat)) (imps : list (option T)) (lat : list (Z * bounds))
@@ -685,7 +697,8 @@ Section Num.
     end.
 
   Definition transform_one (k : nat) (mn : string) : res unit :=
-    if (k =? 12)%nat then Ok tt
+    if mn =? "gq:short" then Err EIndex
+    else if (k =? 12)%nat then Ok tt
     else if quadric mn || mem mn ["rec"; "ell"] then Err EUnmodelled
     else Err EValue.
 
